@@ -539,7 +539,7 @@ func isEOFCompare(v ssa.Value) (token.Token, bool) {
 // forwarder blocks on delivery until an error item has been delivered.
 func (e *Eng) ndstreamChunks() {
 	props := []string{"C09"}
-	reader := e.fn("ParseNDStream$4")
+	reader := e.ndRole("reader")
 	if reader != nil {
 		reads := find(reader, isCall("(*bufio.Reader).Read"))
 		okc, detail := len(reads) == 1, fmt.Sprintf("%d calls of buf.Read", len(reads))
@@ -573,7 +573,7 @@ func (e *Eng) ndstreamChunks() {
 		}
 		e.add("reader#chunk-ends-at-newline-or-eof", funcKey(reader), props, okc, detail)
 	}
-	fwd := e.fn("ParseNDStream$3")
+	fwd := e.ndRole("forwarder")
 	if fwd != nil {
 		// the item receive: <-items where items is itself received from the queue
 		var item ipos
@@ -757,4 +757,142 @@ func (e *Eng) stage1State() {
 		detail = "odd-backslash, inside-quote, error mask, pseudo-predecessor (=1) and flatten carry are allocated once before the loop with the S5 initial values"
 	}
 	e.add("stage1#carried-state", funcKey(fn), props, ok, detail)
+}
+
+// ndstreamMore (C09, C20): the stream worker parses into a parser object of its own (a local of the worker, not an
+// object recycled through a pool: a delivered result shares the parser's buffers); bytes that arrive together with
+// io.EOF are still handed over (after buf.Read the reader only gives up early on an error that is NOT io.EOF).
+func (e *Eng) ndstreamMore() {
+	worker := e.ndRole("worker")
+	if worker != nil {
+		ok, detail := false, "parseMessage call not found in the worker"
+		for _, p := range find(worker, isCall("(*internalParsedJson).parseMessage")) {
+			c := p.b.Instrs[p.i].(*ssa.Call)
+			if al, isAl := c.Call.Args[0].(*ssa.Alloc); isAl && al.Parent() == worker {
+				ok, detail = true, "the worker parses into its own local internalParsedJson"
+			} else {
+				ok, detail = false, "the worker's parser object at "+e.pos(c)+" is not a local of the worker (recycled objects share buffers with results already delivered)"
+			}
+		}
+		e.add("worker#own-parser-object", funcKey(worker), []string{"C09", "C15", "C20"}, ok, detail)
+	}
+	reader := e.ndRole("reader")
+	if reader != nil {
+		reads := find(reader, isCall("(*bufio.Reader).Read"))
+		ok, detail := len(reads) == 1, fmt.Sprintf("%d calls of buf.Read", len(reads))
+		if ok {
+			// edges on which the error is known NOT to be io.EOF are the only way to an early return
+			eofPossible := func(b *ssa.BasicBlock, k int) bool {
+				c, neg := condOf(b)
+				if c == nil {
+					return true
+				}
+				op, isCmp := isEOFCompare(c)
+				if !isCmp {
+					return true
+				}
+				trueEdge := (k == 0) != neg
+				notEOFEdge := (op == token.NEQ) == trueEdge
+				return !notEOFEdge
+			}
+			// the chunk counts as handed over once its length has been looked at (`if len(tmp) > 0`) or a worker started
+			lenTest := func(in ssa.Instruction) bool {
+				b, ok := in.(*ssa.BinOp)
+				if !ok || b.Op != token.GTR || !isConstInt(b.Y, 0) {
+					return false
+				}
+				c, ok := b.X.(*ssa.Call)
+				if !ok {
+					return false
+				}
+				bi, ok := c.Call.Value.(*ssa.Builtin)
+				return ok && bi.Name() == "len"
+			}
+			handedOver := or(isGo(), lenTest, isCall("(*bufio.Reader).ReadBytes"))
+			if r, w := reachEdges(reads[0], isReturn(), handedOver, eofPossible); r {
+				ok, detail = false, "after buf.Read the reader can return at "+e.pos(w)+" although the error may be io.EOF: bytes delivered together with io.EOF would be dropped"
+			} else {
+				detail = "an early return after buf.Read is only possible for an error other than io.EOF"
+			}
+		}
+		e.add("reader#eof-bytes-kept", funcKey(reader), []string{"C09"}, ok, detail)
+	}
+	// the shared zstd decoder is only used through DecodeAll (documented as safe for concurrent use)
+	var bad []string
+	n := 0
+	for _, fn := range e.allFuncs() {
+		for _, b := range fn.Blocks {
+			for _, in := range b.Instrs {
+				c := callCommon(in)
+				if c == nil || len(c.Args) == 0 {
+					continue
+				}
+				ld, isLd := c.Args[0].(*ssa.UnOp)
+				if !isLd {
+					continue
+				}
+				g, isG := ld.X.(*ssa.Global)
+				if !isG || g.Name() != "zDec" {
+					continue
+				}
+				n++
+				if cn := calleeName(c); !strings.HasSuffix(cn, ".DecodeAll") {
+					bad = append(bad, cn+" at "+e.pos(in))
+				}
+			}
+		}
+	}
+	e.add("global#zDec-only-DecodeAll", "package", []string{"C20"}, n > 0 && len(bad) == 0,
+		fmt.Sprintf("%d uses of the shared decoder; stateful (streaming) uses: %s", n, strings.Join(bad, ", ")))
+}
+
+// ndRole finds the goroutine bodies of ParseNDStream by what they do, not by their ordinal among the anonymous
+// functions (inserting another closure must not move the obligations): the reader calls bufio.Reader.Read, the worker
+// calls parseMessage, the forwarder receives from a channel of channels.
+func (e *Eng) ndRole(role string) *ssa.Function {
+	f := e.ndRoleQuiet(role)
+	if f == nil {
+		e.errs = append(e.errs, "ParseNDStream: goroutine body with role "+role+" not found")
+	}
+	return f
+}
+
+func (e *Eng) ndRoleQuiet(role string) *ssa.Function {
+	var found *ssa.Function
+	for _, fn := range e.allFuncs() {
+		top := fn
+		for top.Parent() != nil {
+			top = top.Parent()
+		}
+		if top.Name() != "ParseNDStream" || fn == top {
+			continue
+		}
+		switch role {
+		case "reader":
+			if len(find(fn, isCall("(*bufio.Reader).Read"))) > 0 {
+				found = fn
+			}
+		case "worker":
+			if len(find(fn, isCall("(*internalParsedJson).parseMessage"))) > 0 {
+				found = fn
+			}
+		case "forwarder":
+			for _, p := range find(fn, func(in ssa.Instruction) bool {
+				u, ok := in.(*ssa.UnOp)
+				if !ok || u.Op != token.ARROW {
+					return false
+				}
+				ch, isCh := u.X.Type().Underlying().(*types.Chan)
+				if !isCh {
+					return false
+				}
+				_, inner := ch.Elem().Underlying().(*types.Chan)
+				return inner
+			}) {
+				_ = p
+				found = fn
+			}
+		}
+	}
+	return found
 }
